@@ -140,9 +140,11 @@ theorem dirobj2_rejected :
 theorem dirobj2_not_refines : ¬ Refines tDirObj2 allObjs [] [97, 47] [47] [] 10 := by
   unfold Refines; decide
 
-/-! ### 6. phantom directory (hypothesis `hpop`)
-a directory holding no key (e.g. only an empty, non-object subdirectory) is listed as a common
-prefix. On disk this needs a directory that is not an explicit object and holds no object. -/
+/-! ### 6. phantom directory (hypothesis `hpop`, `walk:phantom-directory`)
+a directory holding no key is listed as a common prefix: Walk rolls a directory up without looking
+for a listable entry below it. On disk: a versioned bucket in which every key below `dir/` has been
+deleted — posix keeps the file of a delete marker in place and `fileToObj` answers ErrSkipObj for
+it (here: `fileOnly` answers for no path below `a/`, the directory `a` is empty). -/
 
 def tPhantom : List Tree := [.dir [97] [], .file [98]]
 
